@@ -1,5 +1,53 @@
-"""RewritePacket / PacketFlags shape table (C02, C12): placeholder until Rewrite.tla is built."""
+"""RewritePacket / PacketFlags / Keyframe on enumerated shapes (Rewrite.tla, complete table), exhaustive short payloads and seeded
+random bytes (C02 shape clauses, C12-R4): the codecs overlay harness calls the real functions under recover(); Trace_Parse judges."""
+import json, os
+import common as C
+
+PREFIX = {"C02": ("C02_",), "C12": ("C12_",)}
 
 
 def run_shapes(rep, w, tier, pid, replay=None):
-    rep.notes.append("descriptor-shape table not built yet")
+    thorough = tier == "thorough"
+    r = C.tlc(w, "Rewrite.tla", "MC_Rewrite.cfg", workers=1, timeout=900, deadlock=False)
+    rep.model("MC_Rewrite.cfg (complete table of 12 096 packet shapes x truncation lengths)", r, exhaustive=True)
+    C.must_complete(r, "MC_Rewrite")
+    shapes = r.json_prints("CASE")
+    if not shapes:
+        raise C.Inconclusive("no shapes enumerated")
+    script = os.path.join(w, "shapes.json")
+    json.dump(shapes, open(script, "w"))
+    tb = C.go_test_binary(w, "codecs", "codecs.test")
+    trace = os.path.join(w, "trace_parse.ndjson")
+    env = dict(C.GOENV)
+    env.update({"VERIF_IN": script, "VERIF_OUT": trace, "VERIF_SEED": str(C.seed()), "VERIF_N": "400000" if thorough else "20000"})
+    rc, out, _ = C.run([tb, "-test.run", "^TestVerifParsers$", "-test.count=1"], cwd=w, env=env, timeout=3000)
+    if rc != 0:
+        raise C.Inconclusive("codecs parser harness died (exit %d): %s" % (rc, out[-1500:]))
+    # only the interesting lines are kept in full for TLC (a million one-line records otherwise)
+    n, keep, kinds = 0, [], {}
+    with open(trace) as f:
+        for line in f:
+            n += 1
+            e = json.loads(line)
+            k = "%s/%s" % (e.get("ev"), e.get("kind"))
+            kinds[k] = kinds.get(k, 0) + 1
+            if e.get("ev") == "rewrite" and e.get("kind") == "shape" or e.get("panic") or e.get("other") or e.get("lenchg") or n % 50 == 0:
+                keep.append(e)
+    t2 = os.path.join(w, "trace_parse2.ndjson")
+    with open(t2, "w") as f:
+        for e in keep:
+            f.write(json.dumps(e) + "\n")
+    v = C.tlc_trace(w, "Trace_Parse.tla", "Trace_Parse.cfg", t2, "trace_parse.ndjson", timeout=1800)
+    rep.cov["parser_calls"] = n
+    rep.cov["parser_call_kinds"] = kinds
+    rep.cov["parser_calls_judged_by_tlc"] = len(keep)
+    rep.notes.append("parser calls without panic / modification / length change are judged in Go (three integer fields) and sampled 1:50 into the TLC trace; every shape row and every anomalous call is judged by TLC")
+    rep.cases(n, len(shapes) + kinds.get("parse/payload", 0) // 4)
+    rep.traces(1)
+    rep.sample({"shape_row": shapes[len(shapes) // 3]})
+    for (line, nb, clause) in v.bads:
+        e = keep[line - 1]
+        if clause.startswith(PREFIX[pid]):
+            rep.violation("%s: %s" % (clause, json.dumps(e)[:400]), {"call": e})
+        else:
+            rep.notes.append("clause %s of another property failed: %s" % (clause, json.dumps(e)[:200]))
